@@ -221,11 +221,13 @@ def gen_list(rng, negative=False, allow_single=True):
     while len(vals) < k:
         vals.add(rand_frac(rng))
     vals = list(vals)
+    if rng.random() < 0.06 and len(vals) >= 2:
+        vals.append(rng.choice(vals))  # a repeated radius: parsed as given (increments/boundaries are then outside the statement)
     rng.shuffle(vals)
     if negative:
         vals[rng.randrange(len(vals))] *= -1
     o, c = rng.choice(["[]", "()"])
-    if k == 1 and o == "(":
+    if len(vals) == 1 and o == "(":
         body = render(rng, vals[0]) + ws(rng) + ","
     else:
         body = (ws(rng) + "," + ws(rng)).join(render(rng, v) for v in vals)
